@@ -22,6 +22,18 @@ SPEC DECISIONS
         for the notifications.  A response that does not verify changes nothing (§8.4: "the client SHALL
         stop processing the response") — the genuine response can still arrive.  A server's binding is
         consumed when it has protected a response, unless the request was a registration.
+        SERVER side, where RFC 8613 / RFC 7641 do not say when a server forgets: a binding that was made or
+        re-made by a request with an Observe option (registration, re-registration, cancellation) is marked
+        `observe`; a marked binding stays when a response has been protected, and stays marked when a later
+        request re-uses its token, with or without Observe (libcoap: `is_observe` of a server-side association
+        is set by any Observe request and never cleared; the association lives until the session ends — a
+        resource matter, not C14's).  The CLIENT follows RFC 7641: kept for Observe 0 only, re-decided by every
+        request.
+        Together with D14.5 — a response for a marked binding has its own Partial IV — the nonce of a request
+        protects at most one response: a response without Partial IV belongs to an unmarked binding, and
+        consumes it.
+        A request that does NOT verify changes nothing either (§8.2: "stop processing the request"): the
+        binding a pending response will be protected with is that of the latest VERIFIED request (D14.15).
  D14.17 replay of a notification (same Partial IV delivered twice while the registration lasts) is C15's
         subject (D14.11) and is not judged here; a duplicate of a response to a non-Observe request finds no
         binding any more and is rejected.
@@ -39,6 +51,7 @@ structure Entry where
   token : Bytes
   b : Binding
   keep : Bool
+  observe : Bool        -- D14.5: the request carried an Observe option (any value)
   deriving Repr, DecidableEq
 
 /-- token ↦ binding, as an association list with at most one entry per token -/
@@ -53,7 +66,7 @@ is (re)placed.  `none`: protection failed, nothing changes. -/
 def clientSend (cipher : Bytes → Bytes → Bytes) (c : Ctx) (st : Store) (m : Msg) (seq : Nat) : Option (Msg × Store) :=
   match protectRequest cipher c m seq with
   | none => none
-  | some (pm, b) => some (pm, sSet st ⟨m.token, b, isRegistration m.opts⟩)
+  | some (pm, b) => some (pm, sSet st ⟨m.token, b, isRegistration m.opts, hasObserve m.opts⟩)
 
 /-- §8.4 + D14.15/16: a datagram with a response code arrives at the client — the genuine response, a late
 one, a duplicate, a forgery: verified against the binding of its token. -/
@@ -65,21 +78,33 @@ def clientRecv (cipher : Bytes → Bytes → Bytes) (c : Ctx) (st : Store) (r : 
     | .ok m b => (.ok m b, if e.keep then st else sDel st r.token)
     | v => (v, st)
 
-/-- §8.2 + D14.15: a request arrives at the server -/
+/-- D14.16, server: the `observe` mark of the binding that a verified request with options `os` makes for token `t` —
+the request carries Observe, or it re-uses the token of a marked binding that is still held -/
+def sObs (st : Store) (t : Bytes) (os : List (Nat × Bytes)) : Bool :=
+  hasObserve os || (match sFind st t with | some e => e.observe | none => false)
+
+/-- §8.2 + D14.15 + D14.16: a request arrives at the server; only a request that verifies (re)binds its token -/
 def serverRecv (cipher : Bytes → Bytes → Bytes) (c : Ctx) (st : Store) (pm : Msg) : Verdict × Store :=
   match unprotectRequest cipher c pm with
-  | .ok m b => (.ok m b, sSet st ⟨pm.token, b, isRegistration m.opts⟩)
+  | .ok m b => (.ok m b, sSet st ⟨pm.token, b, sObs st pm.token m.opts, sObs st pm.token m.opts⟩)
   | v => (v, st)
 
-/-- §8.3 + D14.16: the server protects a response for the request bound to the response's token -/
-def serverSend (cipher : Bytes → Bytes → Bytes) (c : Ctx) (st : Store) (m : Msg) (seq : Option Nat) (sepMid : Option Nat) :
+/-- §8.3 + D14.5 + D14.16: the server protects a response for the request bound to the response's token; `ask`: the caller
+asks for a Partial IV, `seq`: the server's Sender Sequence Number (used iff `serverOwnPiv`) -/
+def serverSend (cipher : Bytes → Bytes → Bytes) (c : Ctx) (st : Store) (m : Msg) (ask : Bool) (seq : Nat) (sepMid : Option Nat) :
     Option (Msg × Store) :=
   match sFind st m.token with
   | none => none
   | some e =>
-    match protectResponse cipher c e.b m seq sepMid with
+    match protectResponseFor cipher c e.b e.observe m ask seq sepMid with
     | none => none
     | some r => some (r, if e.keep then st else sDel st m.token)
+
+/-- D14.5 at the server: does the response `m` take a Sender Sequence Number? (`false` also when no request is bound) -/
+def serverOwnPiv (st : Store) (m : Msg) (ask : Bool) : Bool :=
+  match sFind st m.token with
+  | none => false
+  | some e => ownPiv ask e.observe m
 
 /-! ### the client's side of a whole sequence -/
 
